@@ -7,7 +7,7 @@ structure St where
   sdDims : List Nat
   ifDims : List Nat
   ifCodims : List Nat
-  s : State
+  w : World
 
 def St.U (st : St) : Universe :=
   ⟨fun k => st.sdDims.getD k 0, fun k => st.ifDims.getD k 0, fun k => st.ifCodims.getD k 0⟩
@@ -17,6 +17,7 @@ def errName : Err → String
   | .keyError => "KeyError"
   | .assertionError => "AssertionError"
   | .indexError => "IndexError"
+  | .notImplementedError => "NotImplementedError"
 
 def exJ {α : Type} (f : α → Json) : Except Err α → Json
   | .ok a => f a
@@ -63,45 +64,73 @@ def observe (U : Universe) (s : State) : Json :=
     ("dim_min", if s.sds.isEmpty then err "ValueError"
                 else ofNat (s.sds.foldl (fun m g => min m (U.sdDim g)) (U.sdDim (s.sds.headD 0))))]
 
-def answer (U : Universe) (r : Result) (wf : Bool) : Json :=
-  obj [("res", match r.err with | none => Json.str "ok" | some e => err (errName e)),
-       ("calls", ofList callJ r.calls),
+def pairsJ (l : List (Nat × Nat)) : Json := ofList (fun (b : Nat × Nat) => ofNats [b.1, b.2]) l
+
+/-- raw dictionaries of one container, data-dictionary tokens included -/
+def rawJ (d : DState) : Json :=
+  obj [("sds", ofNats d.core.sds),
+       ("pairs", ofList (fun (p : Entry) => ofNats [p.1, p.2.1, p.2.2]) d.core.pairs),
+       ("bg_of", pairsJ d.core.bgs),
+       ("sd_tok", pairsJ d.sdData), ("if_tok", pairsJ d.ifData), ("bg_tok", pairsJ d.bgData)]
+
+def answer (U : Universe) (w : World) (k : Nat) (e : Option Err) (calls : List Call) (wf : Bool) : Json :=
+  let d := w.conts.getD k DState.empty
+  obj [("res", match e with | none => Json.str "ok" | some e => err (errName e)),
+       ("calls", ofList callJ calls),
        ("wf", Json.bool wf),
-       ("obs", observe U r.state)]
+       ("obs", observe U d.core),
+       ("all", ofList rawJ w.conts)]
 
 def jPair (j : Json) : R (Nat × Nat) := do
   match (← jList jNat j) with
   | [a, b] => pure (a, b)
   | _ => throw "pair expected"
 
-def doOp (st : St) (op : Op) : R (St × Json) :=
+def onOf (j : Json) : R Nat :=
+  match j.getObjVal? "on" with
+  | .ok v => jNat v
+  | .error _ => pure 0
+
+def doOp (st : St) (k : Nat) (op : Op) : R (St × Json) := do
   let U := st.U
-  let r := step U st.s op
-  pure ({ st with s := r.state }, answer U r (wfOp U st.s op))
+  match st.w.conts[k]? with
+  | none => throw "no such container"
+  | some d =>
+    let d0 := d.withCounters st.w.nextBg st.w.nextTok
+    let r := dstep U d0 op
+    let w' := wstep U st.w (.on k op)
+    pure ({ st with w := w' }, answer U w' k r.err r.calls (wfOp U d0.core op))
 
 def stepD (st : St) (j : Json) : R (St × Json) := do
   let op ← fStr j "op"
   let U := st.U
+  let k ← onOf j
+  let s := (st.w.conts.getD k DState.empty).core
   match op with
   | "init" =>
     let a ← fNats j "sd_dims"
     let b ← fNats j "if_dims"
     let c ← fNats j "if_codims"
-    pure (⟨a, b, c, State.empty⟩, Json.str "ok")
-  | "add_subdomains" => doOp st (.addSubdomains (← fNats j "gs"))
-  | "add_interface" => doOp st (.addInterface (← fNat j "i") (← fNats j "pair"))
-  | "remove_subdomain" => doOp st (.removeSubdomain (← fNat j "g"))
+    pure (⟨a, b, c, World.init⟩, Json.str "ok")
+  | "add_subdomains" => doOp st k (.addSubdomains (← fNats j "gs"))
+  | "add_interface" => doOp st k (.addInterface (← fNat j "i") (← fNats j "pair"))
+  | "remove_subdomain" => doOp st k (.removeSubdomain (← fNat j "g"))
   | "replace" =>
     let im ← fNats j "intf_map"
     let sm ← field j "sd_map" >>= jList jPair
-    doOp st (.replace im sm)
-  | "fork" => pure (st, obj [("res", Json.str "ok"), ("obs", observe U st.s)])
-  | "q_pair" => pure (st, obj [("res", exJ pairJ (pairOf U st.s (← fNat j "i")))])
+    doOp st k (.replace im sm)
+  | "fork" =>
+    if k ≥ st.w.conts.length then throw "no such container" else
+    let w' := wstep U st.w (.copy k)
+    pure ({ st with w := w' },
+      obj [("res", Json.str "ok"), ("obs", observe U (w'.conts.getD (w'.conts.length - 1) DState.empty).core),
+           ("all", ofList rawJ w'.conts)])
+  | "q_pair" => pure (st, obj [("res", exJ pairJ (pairOf U s (← fNat j "i")))])
   | "q_back" =>
     let p ← field j "pair" >>= jPair
-    pure (st, obj [("res", exJ ofNat (intfOfPair st.s p.1 p.2))])
-  | "q_sd" => pure (st, obj [("res", perSd U st.s (← fNat j "g"))])
-  | "q_neigh_both" => pure (st, obj [("res", exJ ofNats (neighbours U st.s (← fNat j "g") true true))])
+    pure (st, obj [("res", exJ ofNat (intfOfPair s p.1 p.2))])
+  | "q_sd" => pure (st, obj [("res", perSd U s (← fNat j "g"))])
+  | "q_neigh_both" => pure (st, obj [("res", exJ ofNats (neighbours U s (← fNat j "g") true true))])
   | _ => throw s!"unknown op {op}"
 
-def main : IO Unit := runDriver (⟨[], [], [], State.empty⟩ : St) stepD
+def main : IO Unit := runDriver (⟨[], [], [], World.init⟩ : St) stepD
